@@ -166,7 +166,16 @@ def case_pipeline(ctx, inp):
         except Exception as e:  # noqa: BLE001
             ctx.fail("source construction raised: " + U.exc_name(e), observed=U.exc_name(e))
             return
+        unsorted_inside = False
         for op in inp["ops"]:
+            if op[0] in ("concat", "merge_index"):
+                unsorted_inside = True      # pieces of several frames are concatenated inside a partition, not sorted
+            elif op[0] in ("set_index", "reset_set"):
+                unsorted_inside = False
+            if unsorted_inside and op[0] in ("loc_slice", "loc_list", "loc_elem"):
+                # label slicing of a partition whose index is not monotonic is pandas-positional / raises KeyError:
+                # a C36 matter (reported to dfrows), not a statement about divisions
+                continue
             try:
                 d, p = _apply(op, d, p)
             except (KeyError, ValueError, NotImplementedError) as e:
@@ -177,29 +186,37 @@ def case_pipeline(ctx, inp):
             except Exception as e:  # noqa: BLE001
                 ctx.fail(f"{op[0]} raised {U.exc_name(e)}", sig=f"{op[0]}:{type(e).__name__}", observed=[op, U.exc_name(e)])
                 return
-        try:
-            divs = list(d.divisions)
-            n = d.npartitions
-            parts = U.partitions(d)
-        except Exception as e:  # noqa: BLE001
-            ctx.fail("computing divisions/partitions raised: " + U.exc_name(e),
-                     sig=f"{inp['ops'][-1][0] if inp['ops'] else 'source'}:compute:{type(e).__name__}", observed=U.exc_name(e))
-            return
         path = "+".join(o[0] for o in inp["ops"]) or inp["src"]["kind"]
         # known finding: a filter after a set_index whose divisions were computed from the data is pushed below the
         # set_index by the optimizer, which then recomputes (different) divisions on the filtered data
-        si = [i for i, o in enumerate(inp["ops"]) if o[0] == "set_index" and o[1] is None]
+        si = [i for i, o in enumerate(inp["ops"]) if (o[0] == "set_index" and o[1] is None) or o[0] == "reset_set"]
         pushed = bool(si) and any(o[0] == "filter" for o in inp["ops"][si[0] + 1:])
         fsig = "set_index(computed divisions)+filter:optimizer-recomputes-divisions" if pushed else None
         # known finding: Head/Tail of such a set_index is rewritten to SetIndex(NFirst/NLast(...))
         if fsig is None and si and any(o[0] in ("head", "tail") for o in inp["ops"][si[0] + 1:]):
             fsig = "set_index(computed divisions)+head|tail:optimizer-rewrites-to-NFirst/NLast"
         last = inp["ops"][-1][0] if inp["ops"] else inp["src"]["kind"]
+        try:
+            divs = list(d.divisions)
+            n = d.npartitions
+            parts = U.partitions(d)
+        except Exception as e:  # noqa: BLE001
+            # with the known optimizer rewrites the reported divisions and the graph disagree; a later step that
+            # relies on the reported divisions (repartition(divisions=...)) then fails at compute time
+            ctx.fail("computing divisions/partitions raised: " + U.exc_name(e),
+                     sig=fsig or (f"set_index(computed divisions)+later-step:compute-raises-{type(e).__name__}" if si and len(inp["ops"]) > si[0] + 1
+                                  else f"{inp['ops'][-1][0] if inp['ops'] else 'source'}:compute:{type(e).__name__}"),
+                     observed=[U.exc_name(e), path])
+            return
+
         if len(divs) != n + 1 or n != len(parts):
-            ctx.fail("npartitions / len(divisions)-1 / number of graph partitions disagree", sig=None,
+            ctx.fail("npartitions / len(divisions)-1 / number of graph partitions disagree", sig=fsig,
                      observed=[n, len(divs) - 1, len(parts), path])
             return
         known = divs[0] is not None and all(x is not None for x in divs)
+        if known and any(x != x for x in divs):
+            ctx.branch("nan-divisions:" + last)     # set_index of an empty frame: divisions (nan, nan), nothing to describe
+            known = False
         keys = [[k for k in pp.index] for pp in parts]
         if known:
             ctx.branch("known:" + last)
@@ -234,7 +251,7 @@ def case_pipeline(ctx, inp):
             got = sorted((int(k), -1 if v != v else int(v)) for pp in parts for k, v in zip(pp.index, pp.v))
             exp = sorted((int(k), -1 if v != v else int(v)) for k, v in zip(p.index, p.v))
             if got != exp:
-                ctx.fail("rows differ from the pandas reference", sig=f"rows:{last}", observed=[got[:12], exp[:12], path])
+                ctx.fail("rows differ from the pandas reference", sig=fsig or f"rows:{last}", observed=[got[:12], exp[:12], path])
     del pd
 
 
